@@ -19,11 +19,33 @@ RULE = (
     "distinct = event-log digest; non-trivial = >= 20 values compared after a completed save->restart"
 )
 ASSUMPTIONS = [
-    "bound: cell positions up to row 2000 / column 999 in quick (a write at row 999999 allocates 1e6 cell objects); thorough adds one deep write per 64 runs at rows 65536..70000",
+    "bound: cell positions up to row 2000 / column 999 in quick (a write at row 999999 allocates 1e6 cell objects, ~3 GB); thorough adds one deep write per 64 runs at rows 65536..70000 and, once per batch (run index 7), writes at row 999999 and column 999 - the documented limits themselves - plus the first position beyond each",
 ]
 
 
+def gen_max_position(seed: int):
+    """The documented limits themselves: a write at row 999 999 of a one-column table and at column 999 of a one-row
+    table (10^6 cell objects, ~3 GB, ~3 min: once per thorough batch), and the first position beyond each limit."""
+    cfg = {"property": PROPERTY, "aspects": ["grid", "names"], "profile": "values", "grid_prefix": "C01", "_mix": {"f": 1}, "_long": False,
+           "stratum": "max_position", "wall_cap": 1500}
+    g = Gen(seed, "thorough", cfg)
+    g.emit({"op": "new_doc", "rows": 1, "cols": 1, "hr": 0, "hc": 0})
+    g.emit({"op": "write", "d": 0, "s": 0, "t": 0, "r": 0, "c": 999, "v": V.enc("last column")})
+    g.emit({"op": "bad_pos", "d": 0, "s": 0, "t": 0, "method": "write", "r": {"rel": "in", "k": 0}, "c": {"rel": "max", "k": 0}, "nota": "rc"})
+    g.emit({"op": "save", "d": 0, "slot": "f0"})
+    g.emit({"op": "restart", "d": 0, "slot": "f0"})
+    g.emit({"op": "new_doc", "d": 0, "rows": 1, "cols": 1, "hr": 0, "hc": 0})
+    g.emit({"op": "drop", "d": 0})
+    g.emit({"op": "write", "d": 0, "s": 0, "t": 0, "r": 999_999, "c": 0, "v": V.enc(12.5)})
+    g.emit({"op": "bad_pos", "d": 0, "s": 0, "t": 0, "method": "write", "r": {"rel": "max", "k": 0}, "c": {"rel": "in", "k": 0}, "nota": "rc"})
+    g.emit({"op": "save", "d": 0, "slot": "f1"})
+    g.emit({"op": "restart", "d": 0, "slot": "f1"})
+    return cfg, g.ops
+
+
 def gen(seed: int, tier: str, idx=None):
+    if tier == "thorough" and idx == 7:
+        return gen_max_position(seed)
     rng0 = substream(seed, "swarm")
     stratum = (idx or 0) % 4 if idx is not None else rng0.randrange(4)
     block = (idx or 0) // 4
@@ -34,6 +56,15 @@ def gen(seed: int, tier: str, idx=None):
     cls = rng0.choices(["tiny", "small", "default", "tile", "wide"], [1, 3, 2, 2, 1])[0]
     rows, cols = pick_shape(rng0, cls)
     g.emit({"op": "new_doc", "rows": rows, "cols": cols, "hr": min(rng0.choice([0, 1, 1, 2]), rows), "hc": min(rng0.choice([0, 1, 1]), cols)})
+    # a third of the runs spread the values over several tables (added tables and sheets get their own lookup lists)
+    ntab = 1
+    if rng0.random() < 0.33:
+        for _ in range(rng0.randint(1, 3)):
+            if rng0.random() < 0.7:
+                g.emit({"op": "add_table", "d": 0, "s": 0, "rows": rng0.randint(1, 6), "cols": rng0.randint(1, 4)})
+            else:
+                g.emit({"op": "add_sheet", "d": 0, "rows": rng0.randint(1, 6), "cols": rng0.randint(1, 4)})
+            ntab += 1
     cycles = rng0.choice([1, 1, 2, 3])
     nvals = rng0.randint(40, 400 if tier == "thorough" else 220)
     ncols_use = max(1, min(cols, 6))
@@ -48,7 +79,8 @@ def gen(seed: int, tier: str, idx=None):
             else:
                 v = g.value()
             seq += 1
-            tm = g.ms.docs[0].model.sheets[0].tables[0]
+            tabs = list(g.ms.docs[0].model.tables())
+            si_, ti_, tm = tabs[rng.randrange(len(tabs))] if (ntab > 1 and rng.random() < 0.6) else tabs[0]
             r = rng.random()
             if r < 0.6:
                 row, col = (seq // ncols_use) % max(tm.nrows, 1), seq % ncols_use
@@ -61,7 +93,7 @@ def gen(seed: int, tier: str, idx=None):
                 col = rng.randrange(min(tm.ncols, 4))
             if max(row + 1, tm.nrows) * max(col + 1, tm.ncols) > 6000:
                 row, col = g.index(tm.nrows), g.index(tm.ncols)
-            g.emit({"op": "write", "d": 0, "s": 0, "t": 0, "r": row, "c": col, "v": V.enc(v), "nota": rng.choice(["rc", "rc", "a1", "abs"])})
+            g.emit({"op": "write", "d": 0, "s": si_, "t": ti_, "r": row, "c": col, "v": V.enc(v), "nota": rng.choice(["rc", "rc", "a1", "abs"])})
         if tier == "thorough" and idx is not None and idx % 64 == 5 and cyc == 0:
             g.emit({"op": "new_doc", "rows": 1, "cols": 1, "hr": 0, "hc": 0})
             g.emit({"op": "write", "d": 1, "s": 0, "t": 0, "r": rng.randint(65_536, 70_000), "c": 0, "v": V.enc(g.value())})
